@@ -113,6 +113,17 @@ def run(ctx):
     # every grammar production with letters in it (am/pm markers, weekday, month, part-of-day and unit words ...)
     from .c09 import grammar_exprs
     texts += [(t, (2018, 3, 7, 12, 43)) for t in grammar_exprs(rnd, ctx.quick) if any(c.isalpha() for c in t)]
+    # every number word of the lexicon in a duration (ß / umlaut spellings upper-case to SS / Ä: case folding, not just lower())
+    for n, forms in sorted(G.LEX["number_word"].items(), key=lambda x: int(x[0])):
+        for w in forms:
+            if not w.isascii() or int(n) in (1, 2, 12, 30, 31) or (ctx.seed + int(n)) % 5 == 0 or not ctx.quick:
+                texts.append((w + " tage", (2018, 3, 7, 12, 43)))
+                texts.append(("1.5.2021 für " + w + " nächte", (2018, 3, 7, 12, 43)))
+    for key in ("unit", "month", "dow"):
+        for k2, forms in G.LEX[key].items():
+            for w in forms:
+                if not w.isascii():
+                    texts.append(("3 " + w if key == "unit" else ("5. " + w if key == "month" else w), (2018, 3, 7, 12, 43)))
     for h in (12, 0, 8, 11):
         for f in ("%dam", "%d am", "%d:30 a.m.", "%dpm", "%d:15 pm", "%d uhr", "%dh"):
             texts.append((f % h, (2018, 3, 7, 12, 43)))
